@@ -28,8 +28,14 @@ MODULE = "checks.bounded_C06"
 WORKERS = 16
 
 TIERS = {
-    "quick": dict(n_small=6, n_strided=3, prefixes=64, numeric_every=5, numeric_prefixes=16, watchdog=20.0),
-    "thorough": dict(n_small=24, n_strided=16, prefixes=64, numeric_every=1, numeric_prefixes=64, watchdog=60.0),
+    # wide_trees / wide_prefixes: the 30- and 40-children trees (legacy evaluation of two nested quantifiers is
+    # quadratic in the fan-out, and every open leaf is examined on top of that)
+    # watchdog: CPU seconds per evaluate() call; max_timeouts: a task stops after that many expiries (count()
+    # on open trees searches for insertions and can run for minutes)
+    "quick": dict(n_small=8, n_strided=4, prefixes=64, numeric_every=3, numeric_prefixes=16, watchdog=4.0,
+                  wide_trees=1, wide_prefixes=6, max_timeouts=4),
+    "thorough": dict(n_small=24, n_strided=16, prefixes=64, numeric_every=1, numeric_prefixes=64, watchdog=30.0,
+                     wide_trees=2, wide_prefixes=40, max_timeouts=12),
 }
 
 # extra templates whose verdict depends on the open part by construction
@@ -63,7 +69,7 @@ def closed_pool(name: str, cfg: Dict[str, Any], seed: int):
         # the 30/40-children trees: prefixes are the cuts of single children (limit applies)
         from bounded.reftree import to_struct, tree_from_string
 
-        for s in ("x" * 29 + "y", "y" + "x" * 39):
+        for s in ("x" * 29 + "y", "y" + "x" * 39)[: cfg["wide_trees"]]:
             chosen.append(to_struct(tree_from_string(GRAMMARS[name], s)))
     return chosen
 
@@ -120,6 +126,12 @@ def _open_paths(tree) -> List[Tuple[int, ...]]:
     return [p for p, n in ref_paths(tree) if n.children is None]
 
 
+def _has_open_leaf_of(tree, nonterminals) -> bool:
+    from bounded.reftree import ref_paths
+
+    return any(n.children is None and n.value in nonterminals for _, n in ref_paths(tree))
+
+
 def cut_tree(tree, cuts):
     """Prefix of ``tree`` with the nodes at ``cuts`` turned into open leaves;
     node ids are kept (independent re-implementation of what ref_prefixes
@@ -147,7 +159,9 @@ def _prefix_data(name: str, tier: str, seed: int, limit: int):
     data = []
     for struct in closed_pool(name, TIERS[tier], seed):
         closed = from_struct(struct)
-        prefixes = ref_prefixes(closed, limit=limit)
+        from bounded import c03_helpers as H
+        wide = H.max_fanout(struct) >= 29
+        prefixes = ref_prefixes(closed, limit=min(limit, TIERS[tier]["wide_prefixes"]) if wide else limit)
         pairs = []
         if len(prefixes) <= 64:
             for i, a in enumerate(prefixes):
@@ -200,9 +214,11 @@ def _worker(task: Dict[str, Any]) -> Dict[str, Any]:
             return dict(task=task, parse_error=f"{type(exc).__name__}: {str(exc)[:200]}", crash=None)
         features = H.formula_features(formula)
         numeric = task["variant"] != "plain"
+        recursive_quantified = [nt for nt in H.recursive_nonterminals(grammar) if nt in features["quantified_types"]]
         counts = dict(open_cases=0, definite=0, unknown=0, raises=0, timeouts=0, definite_checked_vs_spec=0,
                       chain_pairs=0, chain_definite_pairs=0, information_loss=0, closed=0,
-                      closed_oracle_undecided=0, dependent_prefixes=0, dependent_unknown=0)
+                      closed_oracle_undecided=0, dependent_prefixes=0, dependent_unknown=0,
+                      skipped_prefixes_after_timeouts=0, skipped_closed_trees_after_timeouts=0)
         violations = []
         raises_examples = []
         samples = []
@@ -210,8 +226,11 @@ def _worker(task: Dict[str, Any]) -> Dict[str, Any]:
         for struct, closed, prefixes, pairs, keys in _prefix_data(name, task["tier"], task["seed"], task["prefixes"]):
             if numeric and H.max_fanout(struct) >= 29:
                 continue  # quantifier elimination is quadratic in the 30/40 children: plain variants only
+            if counts["timeouts"] >= TIERS[task["tier"]]["max_timeouts"]:
+                counts["skipped_closed_trees_after_timeouts"] += 1
+                continue
             counts["closed"] += 1
-            v_closed = H.call_evaluate(formula, closed, grammar, task["watchdog"])
+            v_closed = H.call_evaluate(formula, closed, grammar, max(20.0, task["watchdog"]))
             oracle = H.oracle_verdicts(formula, closed, grammar, features)
             expected = None
             if not oracle["error"] and len(oracle["verdicts"]) == 1 and (oracle["exact"] or (numeric and task["dc"])):
@@ -222,6 +241,12 @@ def _worker(task: Dict[str, Any]) -> Dict[str, Any]:
             placeholders = []
             for idx, prefix in enumerate(prefixes):
                 H.reset_last()
+                if counts["timeouts"] >= TIERS[task["tier"]]["max_timeouts"]:
+                    v = "TO"  # not evaluated any more: counted as skipped below
+                    counts["skipped_prefixes_after_timeouts"] += 1
+                    verdicts.append(v)
+                    placeholders.append(False)
+                    continue
                 v = H.call_evaluate(formula, prefix, grammar, task["watchdog"])
                 verdicts.append(v)
                 placeholders.append(bool(H.LAST["placeholders"]))
@@ -250,6 +275,8 @@ def _worker(task: Dict[str, Any]) -> Dict[str, Any]:
                 if problem is not None:
                     violations.append(dict(kind=problem[0], detail=problem[1], closed=H.struct_to_json(struct),
                                            v_open=v, placeholders=placeholders[idx],
+                                           recursive_open_leaf=_has_open_leaf_of(prefix, recursive_quantified),
+                                           wide=H.max_fanout(struct) >= 29,
                                            cuts=[list(p) for p in _open_paths(prefix)],
                                            open_text=ref_str(prefix), closed_text=ref_str(closed)))
             for i, j in pairs:
@@ -263,6 +290,8 @@ def _worker(task: Dict[str, Any]) -> Dict[str, Any]:
                                                       f"{ref_str(prefixes[j])!r} -> {vj}",
                                                closed=H.struct_to_json(struct),
                                                v_open=vi, placeholders=placeholders[i],
+                                               recursive_open_leaf=_has_open_leaf_of(prefixes[i], recursive_quantified),
+                                               wide=H.max_fanout(struct) >= 29,
                                                cuts=[list(p) for p in _open_paths(prefixes[i])],
                                                cuts2=[list(p) for p in _open_paths(prefixes[j])],
                                                open_text=ref_str(prefixes[i]), closed_text=ref_str(closed)))
@@ -289,13 +318,30 @@ def _worker(task: Dict[str, Any]) -> Dict[str, Any]:
 
 def signature(strategy: str, cat: str, v: Dict[str, Any]) -> str:
     """function : strategy : input class : verdict on the open tree : kind.
-    Input class = template category, except for the quantifier-elimination
-    strategy answering FALSE although the SMT formula it checked for validity
-    contained placeholders for undecided parts (one class, whatever the
-    template)."""
+
+    Input class = template category, except for three classes that are
+    recognised by an observation on the failing case (whatever the template):
+
+    * ``not-valid-with-free-symbols``: the quantifier-elimination strategy
+      answered FALSE although the SMT formula it checked for validity still
+      contained free symbols (placeholders ``P_k`` for undecided quantifiers /
+      predicates, variables for open subtrees);
+    * ``open-leaf-of-recursive-quantified-nonterminal``: ``evaluate_legacy``
+      gave a definite verdict that a completion contradicts, and the open tree
+      has an open leaf labelled with a nonterminal N that the formula
+      quantifies over and that is reachable from itself;
+    * ``tree-quantifier-on-fanout>=29``: the open verdict agrees with evaluate()
+      on the completion, both differ from the spec, and the completion has a
+      node with >= 29 children (the closed-tree defect of C03 seen from here).
+    """
     cls = cat
-    if strategy == "qe" and v.get("v_open") == "F" and v.get("placeholders"):
-        cls = "not-valid-with-placeholders"
+    contradicted = v["kind"] in ("contradicted-by-evaluate-on-completion", "non-monotone-along-prefix-chain")
+    if strategy == "qe" and v.get("v_open") == "F" and v.get("placeholders") and contradicted:
+        cls = "not-valid-with-free-symbols"
+    elif strategy == "legacy" and contradicted and v.get("recursive_open_leaf"):
+        cls = "open-leaf-of-recursive-quantified-nonterminal"
+    elif strategy == "legacy" and not contradicted and v.get("wide"):
+        cls = "tree-quantifier-on-fanout>=29"
     verdict = {"T": "TRUE", "F": "FALSE"}.get(v.get("v_open"), str(v.get("v_open")))
     return f"evaluate-open:{strategy}:{cls}:{verdict}-on-open-tree:{v['kind']}"
 
@@ -354,7 +400,9 @@ def run(rep, tier: str, seed: int) -> None:
                      sample=(res["samples"][i] if i < len(res["samples"]) and case_no % 5 == 1 else None))
         raises_examples.extend(res["raises_examples"])
         if counts["timeouts"]:
-            rep.note_inconclusive(f"{label}: {counts['timeouts']} evaluate() calls hit the watchdog")
+            rep.note_inconclusive(f"{label}: {counts['timeouts']} evaluate() calls on open trees hit the watchdog "
+                                  f"({cfg['watchdog']} CPU s); {counts['skipped_prefixes_after_timeouts']} prefixes and "
+                                  f"{counts['skipped_closed_trees_after_timeouts']} closed trees skipped afterwards")
         strategy = "qe" if task["variant"] != "plain" else "legacy"
         for v in res["violations"]:
             rep.violation(
